@@ -1987,7 +1987,7 @@ impl Prop for C20 {
         "C20"
     }
     fn rule(&self) -> &'static str {
-        "for every generated valid schema (same generator as C19's valid stream: 2-6 vertex types, interface chains, narrowed inherited fields, list/nullable property and edge types, parameterised edges with and without defaults, custom scalars sharing a vertex type's name) the 12 fixed introspection queries (vertex types with is_interface and docs; implements; implementer; properties with displayed type; edges with to_many / at_least_one / target; edge parameters with type and default; entrypoints and their parameters; the same through the Schema vertex; __typename; an @optional implements) plus name-filtered variants ((by-name N) with a listed type, the root type and an undefined name; (one-of …) mixing the three) are run on the real engine through SchemaAdapter and answered by the Lean model; one (adapter-invariants doc) request per schema runs check_adapter_invariants(meta_schema, SchemaAdapter::new(schema)). Rows are compared as sorted multisets. A case is distinct by its request text and non-trivial when the expected row set is non-empty. Oracle on the implementation: rows equal a direct walk of the generated document that follows the documentation of adapter/schema.graphql; no panic."
+        "for every generated valid schema (same generator as C19's valid stream: 2-6 vertex types, interface chains, narrowed inherited fields, list/nullable property and edge types, parameterised edges with and without defaults, custom scalars sharing a vertex type's name) the 12 fixed introspection queries (vertex types with is_interface and docs; implements; implementer; properties with displayed type; edges with to_many / at_least_one / target; edge parameters with type and default; entrypoints and their parameters; the same through the Schema vertex; __typename; an @optional implements) plus name-filtered variants ((by-name N) with a listed type, the root type and an undefined name; (one-of …) mixing the three, and one with a name listed twice) are run on the real engine through SchemaAdapter and answered by the Lean model; one (adapter-invariants doc) request per schema runs check_adapter_invariants(meta_schema, SchemaAdapter::new(schema)). Rows are compared as sorted multisets. A case is distinct by its request text and non-trivial when the expected row set is non-empty. Oracle on the implementation: rows equal a direct walk of the generated document that follows the documentation of adapter/schema.graphql; no panic."
     }
     fn generate(&self, tier: Tier, rng: &mut Rng) -> Vec<Case> {
         let n = if tier == Tier::Quick { 40 } else { 400 };
@@ -2006,6 +2006,9 @@ impl Prop for C20 {
             some.push(atom(&root));
             some.push(atom("Nope"));
             qs.push(Sexp::call("one-of", some));
+            // a name listed twice in the `one_of` argument (F-C20-1: the rows are reported twice)
+            let twice = names[rng.below(names.len())].clone();
+            qs.push(Sexp::call("one-of", vec![atom(&twice), atom(&names[0]), atom(&twice)]));
             for q in qs {
                 let nontrivial = expected_rows(&q, &doc).is_some_and(|r| !r.is_empty());
                 let qname = match &q {
@@ -2078,6 +2081,18 @@ impl Prop for C20 {
                     vals.len() == 2 && vals[0] == vals[1]
                 };
                 class = if missing == 0 && extra.iter().all(|r| reflexive(r)) { ":reflexive-only".into() } else { ":other".into() };
+            }
+            if qname == "one-of" {
+                // rows reported more than once although the set of rows is right?
+                let got: Vec<String> = match Sexp::parse(&e.answer).as_ref().and_then(|s| s.as_call().map(|c| c.1.to_vec())) {
+                    Some(rows) => rows.iter().map(|r| r.to_string()).collect(),
+                    None => vec![],
+                };
+                let got_set: BTreeSet<&String> = got.iter().collect();
+                let exp_set: BTreeSet<&String> = expected.iter().collect();
+                let names: Vec<&str> = args[0].as_call().map(|c| c.1.iter().filter_map(|x| x.as_atom()).collect()).unwrap_or_default();
+                let has_dup = names.iter().enumerate().any(|(i, n)| names[..i].contains(n));
+                class = if got_set == exp_set && got.len() > expected.len() && has_dup { ":duplicated-rows".into() } else { ":other".into() };
             }
             fails.push(OracleFailure {
                 key: format!("introspection-mismatch:{qname}{class}"),
